@@ -144,12 +144,12 @@ pub fn comp_spec(id: &str) -> Option<CompSpec> {
         },
         "C12" => CompSpec {
             rule: "cases: bootstrap config + chain of simple / enter_joint(auto_leave) / leave_joint steps with 0-4 single changes over ids {0..6, 99}; non-trivial = chain containing a joint entry with a demotion (staged learner) or a replace followed by leave_joint, or a rejected change; distinct = distinct case values",
-            quick: 60_000,
+            quick: 150_000,
             thorough: 4_000_000,
         },
         "C14" => CompSpec {
             rule: "cases: op sequences over RaftLog (append, maybe_append with anchors/conflicts relative to offset/persisted/committed, commit_to, stabilize, persistence notices incl. stale ones, restore, applied_to, compaction) with all queries after every op; non-trivial = truncation at/below the unstable offset, or a persistence notice refused by the first-update guard, or restore over a non-empty log, or a slice spanning storage and unstable",
-            quick: 60_000,
+            quick: 150_000,
             thorough: 4_000_000,
         },
         "C18" => CompSpec {
